@@ -14,11 +14,11 @@ NOTNAN = "not isinstance({0}, float) or {0} == {0}"
 
 
 def e(name, params, spec, v, w, pre=(), timeout=90, tier="quick", build="build(spec)", chars=False,
-      kf=None, covers=("subst", "raised"), hunt=False):
+      kf=None, covers=("subst", "raised"), hunt=False, plain=True, only=None):
     return dict(name=name, params=params + ", " + DRAWS + (", c0: str, c1: str" if chars else ""),
                 spec=spec, v=v, w=w, pre=list(pre) + (["len(c0) == 1 and len(c1) == 1"] if chars else []),
                 timeout=timeout, tier=tier, build=build, chars="(c0, c1)" if chars else "()", kf=kf or {},
-                covers=covers, hunt=hunt)
+                covers=covers, hunt=hunt, plain=plain, only=only)
 
 
 def entries():
@@ -72,7 +72,26 @@ def entries():
                pre=["mn == mn and mx == mx and v == v and w == w"], hunt=True, timeout=120))
     L.append(e("float.at.max", "mx: float, w: float", '("float", Nil, Nil, mx, Nil)', "mx", "w", pre=["mx == mx and w == w"],
                hunt=True, timeout=120, covers=("subst",)))
+    # ---- ... placeholders (outside C04/C05 by their text; C12 speaks about any value)
+    L.append(e("ph.list.typed", "a: int, j: int, v0: int, v1: int, w: int", '("list_t", %s, NOLEN)' % INT_A, "place3(j, ..., v0, v1)", "[w, w]",
+               pre=["0 <= j <= 2"], plain=False, only=("C12",)))
+    L.append(e("ph.list.all", "a: int, n: int, w: int", '("list_t", %s, NOLEN)' % INT_A, "mklist(n, ..., ...)", "[w]", pre=["0 <= n <= 2"],
+               plain=False, only=("C12",)))
+    L.append(e("ph.list.head", "a: int, j: int, v0: int, v1: int, w: int", '("list_e", [%s, E], NOLEN)' % INT_A, "place3(j, ..., v0, v1)", "[w, w]",
+               pre=["0 <= j <= 2"], plain=False, only=("C12",), covers=("raised",)))
+    L.append(e("ph.dict", "a: int, pa: bool, pb: bool, va: int, sel: int, w: int",
+               '("dict", [("a", False, %s), ("b", True, ("none",))], False)' % INT_A,
+               "mkdict(('a', pa, ... if sel == 0 else va), ('b', pb, ... if sel == 1 else None), (..., sel == 2, ...))", "{'a': w}",
+               pre=["0 <= sel <= 3"], plain=False, only=("C12",)))
+    L.append(e("ph.dict.untyped", "pa: bool, va: int, sel: int, rel: bool, w: int", '("dict", None) if not rel else ("dict", [], True)',
+               "mkdict(('a', pa, ... if sel == 0 else va), (..., sel == 1, ...))", "{'a': w}", pre=["0 <= sel <= 2"], plain=False, only=("C12",)))
+    L.append(e("ph.scalar", "a: int, i: int, w: int", 'pick((%s, ("none",), ("any", None), ("any", [%s, ("none",)]), ("str", Nil, NOLEN, Nil, Nil, Nil)), i)' % (INT_A, INT_A),
+               "...", "w", plain=False, only=("C12",), covers=("raised",)))
     # ---- dicts
+    L.append(e("dict.relaxed.first", "a: int, k: int, pa: bool, pb: bool, px: bool, va: int, vb: str, qa: bool, qb: bool, qx: bool, wa: int, wb: str",
+               '("dict", [("a", False, %s), ("b", True, ("str", Nil, (Nil, k, Nil), Nil, Nil, Nil))], "first")' % INT_A,
+               "mkdict(('a', pa, va), ('b', pb, vb), ('x', px, 0))", "mkdict(('a', qa, wa), ('b', qb, wb), ('x', qx, 0))",
+               pre=["len(vb) <= 2", "len(wb) <= 2"], timeout=150))
     D = '("dict", [("a", False, %s), ("b", True, ("str", Nil, (Nil, k, Nil), Nil, Nil, Nil))], %%s)' % INT_A
     DP = "a: int, k: int, pa: bool, pb: bool, px: bool, va: int, vb: str, qa: bool, qb: bool, qx: bool, wa: int, wb: str"
     DV = "mkdict(('a', pa, va), ('b', pb, vb), ('x', px, 0))"
@@ -121,6 +140,7 @@ def entries():
 
 
 HEAD = """
+PLAIN = {plain}
 spec = {spec}
 try:
     S = {build}
@@ -141,7 +161,9 @@ def harnesses_for(prop, post, cover_map=None):
         for en in entries():
             if en["tier"] == "thorough" and tier != "thorough":
                 continue
-            body = HEAD.format(spec=en["spec"], build=en["build"], v=en["v"], w=en["w"]) + post.format(chars=en["chars"])
+            if en["only"] and prop not in en["only"]:
+                continue
+            body = HEAD.format(spec=en["spec"], build=en["build"], v=en["v"], w=en["w"], plain=en["plain"]) + post.format(chars=en["chars"])
             covers = cover_map(en["covers"]) if cover_map else en["covers"]
             out.append(mk("%s.%s" % (prop, en["name"]), en["params"], body, covers=covers, pre=en["pre"],
                           timeout=en["timeout"], prelude=PRELUDE, kf=en["kf"], active_kf=active_kf,
